@@ -249,6 +249,8 @@ def run(ctx):
         for fn in sorted(os.listdir(cdir)) if os.path.isdir(cdir) else []:
             if fn.endswith(".txt"):
                 runs.append(("corpus/" + fn, [exe, "--corpus", os.path.join(cdir, fn)] + common))
+            elif fn.endswith(".aasm"):
+                runs.append(("corpus/" + fn, [exe, "--aasm", os.path.join(cdir, fn)] + common))
         if not getattr(ctx, "replay_file", None):
             runs.append(("random", [exe, "--seed", str(ctx.seed), "--cases", str(ncases)] + common + (["--sweep-all", "--histories", "400"] if ctx.tier == "thorough" else [])))
         V, X, S, O = [], {}, [], []
